@@ -21,6 +21,8 @@ Kernels
       identity, strip (3 variants), char-case, replace (real `re`, literal replacement),
       filter, grep
   K6  composition: T | T (= left to right), -transformed-by T M, nested
+  K7  the assertion part shared by the instructions `contents`, `stdout`, `stderr`
+      (StringMatcherAssertionPart): PASS exactly when the documented predicate holds, FAIL otherwise
 """
 from typing import List
 
@@ -112,6 +114,13 @@ REAL_OF = {
             _P + 'string_transformer.impl.sequence_sdv.StringTransformerSequenceSdv'),
 }
 
+REAL_K7 = (
+    'exactly_lib.impls.instructions.assert_.utils.file_contents.parts.string_matcher_assertion_part.StringMatcherAssertionPart',
+    'exactly_lib.impls.instructions.assert_.utils.assertion_part.AssertionPart.check_and_return_pfh',
+    'exactly_lib.impls.instructions.assert_.utils.file_contents.parse_file_contents_assertion_part.parse',
+    'exactly_lib.impls.instructions.utils.logic_type_resolving_helper.resolving_helper_for_instruction_env',
+)
+
 STUB_INT = 'python_evaluate -> placeholder table (integer literal K_i denotes the symbolic integer k_i)'
 STUB_U = 'line matcher of a class unknown to exactly_lib, bound to the symbol U; its verdict on line n is the symbolic bool u[n-1]'
 STUB_TMP = 'tmp-file space that refuses to be used (in-memory texts must not touch the file system)'
@@ -198,7 +207,37 @@ def kt_transformer(s: str, e: str, k0: int, k1: int, u0: bool, u1: bool, u2: boo
         real_lines = list(lines)
     real_str = out.contents().as_str
     expected = L.ref_transformer(c.get('ref_tree', tree), s, env)
-    return ob.post(real_str == expected and real_lines == L.ref_lines(expected))
+    return ob.post(L.same_str(real_str, expected) and L.same_lines(real_lines, L.ref_lines(expected)))
+
+
+# --------------------------------------------------------------------------- K7
+
+def k7_assertion(s: str, e: str, k0: int, k1: int, u0: bool, u1: bool, u2: bool, u3: bool, u4: bool) -> bool:
+    """
+    pre: _pre_common(s, e, k0, k1, u0, u1, u2, u3, u4)
+    post: _
+    """
+    import pathlib
+    from vsym import xly
+    from exactly_lib.impls.instructions.assert_.utils.file_contents.parts.string_matcher_assertion_part import \
+        StringMatcherAssertionPart
+    from exactly_lib.impls.types.string_matcher import parse_string_matcher
+    from exactly_lib.test_case.phases.instruction_environment import InstructionEnvironmentForPostSdsStep, \
+        TmpFileStorage
+    from exactly_lib.test_case.result.pfh import PassOrFailOrHardErrorEnum
+    c = ob.case()
+    tree = c['tree']
+    env = L.Env(e, k0, k1, _us(u0, u1, u2, u3, u4))
+    xly.install_int_placeholders([env.k0, env.k1])
+    sdv = xly.parse_cached('string-matcher', parse_string_matcher.parsers(False).full, L.render_matcher(tree))
+    instruction_env = InstructionEnvironmentForPostSdsStep(
+        None, None, None,
+        TmpFileStorage(pathlib.Path('/nonexistent-vsym-c05'), lambda p: L.app_env().tmp_files_space),
+        L.symbols(env), 2 ** 10)
+    result = StringMatcherAssertionPart(sdv).check_and_return_pfh(instruction_env, None, L.text_model(s))
+    holds = L.ref_matcher(c.get('ref_tree', tree), s, env)
+    expected = PassOrFailOrHardErrorEnum.PASS if holds else PassOrFailOrHardErrorEnum.FAIL
+    return ob.post(result.status is expected)
 
 
 # --------------------------------------------------------------------------- K3
@@ -234,8 +273,8 @@ def k3_equality(e: str, s: str, dep_e: bool, dep_a: bool) -> bool:
     real = matcher.matches_w_trace(actual).value
     if c.get('oracle_bug'):
         # seeded oracle error: a text that merely starts with the expected text is accepted
-        return ob.post(real == actual_text.startswith(expected_text))
-    return ob.post(real == (expected_text == actual_text))
+        return ob.post(real == L.same_str(actual_text[:len(expected_text)], expected_text))
+    return ob.post(real == L.same_str(expected_text, actual_text))
 
 
 # --------------------------------------------------------------------------- K4
@@ -265,8 +304,8 @@ def k4a_redivide(r0: str, r1: str, r2: str) -> bool:
     whole = ''.join(rs)
     if c.get('oracle_bug'):
         # seeded oracle error: a final line without new-line is dropped
-        return ob.post(out == [x for x in L.ref_lines(whole) if x.endswith('\n')])
-    return ob.post(out == L.ref_lines(whole))
+        return ob.post(L.same_lines(out, [x for x in L.ref_lines(whole) if x.endswith('\n')]))
+    return ob.post(L.same_lines(out, L.ref_lines(whole)))
 
 
 def _pre_k4b(s, e, r0, r1, r2, u0, u1, u2) -> bool:
@@ -275,11 +314,26 @@ def _pre_k4b(s, e, r0, r1, r2, u0, u1, u2) -> bool:
         return False
     if len(e) > 1 or not L.in_alphabet(e, 'a\n'):
         return False
-    for r in (r0, r1, r2):
-        if len(r) > c['maxlen_r'] or not L.in_alphabet(r, 'a\n'):
+    rs = (r0, r1, r2)
+    us = (u0, u1, u2)
+    for i in range(3):
+        if i >= c['maxlen']:
+            # a text of <= maxlen characters has <= maxlen lines: later results / verdicts are never asked for
+            if rs[i] != '' or us[i]:
+                return False
+        elif len(rs[i]) > c['maxlen_r'] or not L.in_alphabet(rs[i], 'a\n'):
             return False
     if c['at'] is None and (u0 or u1 or u2):
         return False
+    return True
+
+
+def _same_calls(xs, ys) -> bool:
+    if len(xs) != len(ys):
+        return False
+    for i in range(len(xs)):
+        if not (L.same_str(xs[i][0], ys[i][0]) and L.same_str(xs[i][1], ys[i][1])):
+            return False
     return True
 
 
@@ -320,7 +374,7 @@ def k4b_replace_uninterpreted(s: str, e: str, r0: str, r1: str, r2: str, u0: boo
             exp_calls.append((e, line))
             exp_out.append(r)
     whole = ''.join(exp_out)
-    return ob.post(calls == exp_calls and real_lines == L.ref_lines(whole))
+    return ob.post(_same_calls(calls, exp_calls) and L.same_lines(real_lines, L.ref_lines(whole)))
 
 
 # --------------------------------------------------------------------------- obligations
@@ -352,7 +406,7 @@ def obligations(tier: str) -> List[Ob]:
                     alphabet_e=alphabet_e or 'a \n')
         if ref_tree is not None:
             case['ref_tree'] = ref_tree
-        is_m = fn == 'km_matcher'
+        is_m = fn in ('km_matcher', 'k7_assertion')
         syntax = L.render_matcher(tree) if is_m else L.render_transformer(tree)
         bound = '`%s`: every text s, |s| <= %d over %s' % (
             syntax.replace('\n', '\\n'), maxlen, _alpha_descr(alphabet))
@@ -378,9 +432,10 @@ def obligations(tier: str) -> List[Ob]:
         obs.append(Ob(
             name='%s:%s' % (kernel, name or _name(tree, is_m)), fn=fn, case=case, kernel=kernel, bound=bound,
             timeout=timeout, expect=expect,
-            real=tuple((REAL_PARSE_M if is_m else REAL_PARSE_T)) + tuple(_reals(tree)),
+            real=tuple((REAL_PARSE_M if is_m else REAL_PARSE_T)) + tuple(_reals(tree)) + (REAL_K7 if fn == 'k7_assertion' else ()),
             stubs=tuple(stubs), outside=tuple(outside),
-            entry=('parse_string_matcher.parsers().full -> matches_w_trace(text)' if is_m else
+            entry=('StringMatcherAssertionPart(parsed matcher).check_and_return_pfh(env, os_services, text)' if fn == 'k7_assertion' else
+                   'parse_string_matcher.parsers().full -> matches_w_trace(text)' if is_m else
                    'parse_string_transformer.parsers().full -> transform(text).contents()')))
 
     def m(kernel, tree, maxlen=None, timeout=300, **kw):
@@ -397,13 +452,15 @@ def obligations(tier: str) -> List[Ob]:
         m('K1', ('numlines', op), n_cheap if op == '==' else n_std)
     for rx in _ALL_RX:
         for full in (False, True):
+            if rx == '.*' and not full:
+                continue  # tool limitation: CrossHair's re.search never tries an empty match at the end of the text
             m('K1', ('matches', full, rx), n_cheap)
     m('K1', ('not', ('empty',)))
     m('K1', ('not', ('matches', False, 'a')))
     m('K1', ('and', ('not', ('empty',)), ('numlines', '<=')))
     m('K1', ('or', ('matches', True, 'a'), ('equals-lit', 'a\n')))
     m('K1', ('and', ('matches', False, 'a'), ('or', ('matches', False, '\\.'), ('numlines', '>'))))
-    m('K1', ('not', ('or', ('empty',), ('equals',))))
+    m('K1', ('not', ('or', ('empty',), ('equals',))), maxlen_e=1 if quick else 2)
     m('K1', ('numlines', '=='), name='seeded-oracle-error', expect=ob.REFUTE, ref_tree=('numlines', '>='))
 
     # ---- K2
@@ -432,12 +489,12 @@ def obligations(tier: str) -> List[Ob]:
     t('K5', ('lower',), 2 if quick else 3, alphabet='aA.\n', timeout=900)
     for preserve in (False, True):
         t('K5', ('replace', preserve, None, 'a', 'b'))
-        t('K5', ('replace', preserve, None, 'a', '\\n'))
+        t('K5', ('replace', preserve, None, 'a', '\n'))
         t('K5', ('replace', preserve, None, '[ab]+', ''))
         t('K5', ('replace', preserve, ('U',), 'a', 'b'))
     t('K5', ('replace', False, ('linenum', '=='), 'a|b', 'X'))
     t('K5', ('replace', True, ('contents', ('matches', False, '\\.')), 'a', 'bb'))
-    t('K5', ('replace', False, None, '\\.', 'a\\nb'))
+    t('K5', ('replace', False, None, '\\.', 'a\nb'))
     t('K5', ('filter', ('U',)))
     t('K5', ('filter', ('not', ('U',))))
     for op in (('==', '>=') if quick else L.OPS):
@@ -453,22 +510,33 @@ def obligations(tier: str) -> List[Ob]:
     t('K6', ('seq', ('strip',), ('upper',)), 2 if quick else 3, alphabet='aA \n', timeout=900)
     t('K6', ('seq', ('identity',), ('strip-tnl',)))
     t('K6', ('seq', ('strip-tnl',), ('identity',), ('strip-ts',)))
-    t('K6', ('seq', ('replace', False, None, 'a', '\\n'), ('filter', ('linenum', '=='))))
+    t('K6', ('seq', ('replace', False, None, 'a', '\n'), ('filter', ('linenum', '=='))))
     t('K6', ('seq', ('filter', ('U',)), ('replace', True, None, 'a', 'b')))
     t('K6', ('seq', ('replace', False, None, 'a', 'b'), ('replace', False, None, 'b', 'a')))
     t('K6', ('seq', ('grep', 'a'), ('strip',)))
     t('K6', ('seq', ('strip-ts',), ('seq', ('grep', 'dot'), ('strip-tnl',))))
-    m('K6', ('on', ('strip',), ('equals',)))
+    m('K6', ('on', ('strip',), ('equals',)), maxlen_e=1 if quick else 2)
     m('K6', ('on', ('identity',), ('empty',)))
     m('K6', ('on', ('filter', ('U',)), ('numlines', '==')))
     m('K6', ('on', ('grep', 'a'), ('and', ('equals-lit', 'a\n'), ('not', ('empty',)))))
     m('K6', ('on', ('replace', True, None, 'a', 'b'), ('every', ('contents', ('matches', True, 'b')))))
-    m('K6', ('on', ('seq', ('strip-tnl',), ('replace', False, None, 'a', '\\n')), ('numlines', '>=')))
-    m('K6', ('on', ('strip-ts',), ('on', ('filter', ('linenum', '==')), ('equals',))))
+    m('K6', ('on', ('seq', ('strip-tnl',), ('replace', False, None, 'a', '\n')), ('numlines', '>=')))
+    m('K6', ('on', ('strip-ts',), ('on', ('filter', ('linenum', '==')), ('equals',))), 2 if quick else 3,
+      maxlen_e=1 if quick else 2, timeout=900)
     m('K6', ('not', ('on', ('strip',), ('empty',))))
-    t('K6', ('seq', ('replace', False, None, 'a', '\\n'), ('filter', ('linenum', '=='))),
+    t('K6', ('seq', ('replace', False, None, 'a', '\n'), ('filter', ('linenum', '=='))),
       name='seeded-oracle-error', expect=ob.REFUTE,
-      ref_tree=('seq', ('filter', ('linenum', '==')), ('replace', False, None, 'a', '\\n')))
+      ref_tree=('seq', ('filter', ('linenum', '==')), ('replace', False, None, 'a', '\n')))
+
+    # ---- K7
+    def a7(tree, maxlen=None, timeout=300, **kw):
+        add('K7', 'k7_assertion', tree, maxlen or n_std, timeout, **kw)
+
+    a7(('empty',), n_cheap)
+    a7(('equals',), maxlen_e=1 if quick else 2)
+    a7(('not', ('every', ('contents', ('matches', True, 'dot')))))
+    a7(('on', ('strip-tnl',), ('numlines', '<')))
+    a7(('empty',), name='seeded-oracle-error', expect=ob.REFUTE, ref_tree=('not', ('empty',)))
 
     # ---- K3
     real_k3 = (_P + 'string_matcher.impl.equality._EqualityStringMatcher',
@@ -477,18 +545,19 @@ def obligations(tier: str) -> List[Ob]:
                'exactly_lib.type_val_prims.string_source.string_source.read_lines_as_str__w_minimum_num_chars',
                'exactly_lib.util.str_.read_lines.read_lines_as_str__w_minimum_num_chars')
     n3 = 3 if quick else 4
+    n3e = 2 if quick else 4
     k3_out = ('both texts depending on external resources (filecmp of two real files): C14-K3', OUT_UNI)
     obs.append(Ob(name='K3:strategies', fn='k3_equality', kernel='K3',
-                  case=dict(maxlen=n3, maxlen_e=n3, alphabet='a \n'),
-                  bound='every expected text and every actual text of <= %d characters over {a, space, new-line}; '
-                        'every combination of the may_depend_on_external_resources flags except both' % n3,
-                  timeout=600, real=real_k3, stubs=(STUB_SRC,), outside=k3_out,
+                  case=dict(maxlen=n3, maxlen_e=n3e, alphabet='a \n'),
+                  bound='every expected text of <= %d and every actual text of <= %d characters over {a, space, new-line}; '
+                        'every combination of the may_depend_on_external_resources flags except both' % (n3e, n3),
+                  timeout=1800, real=real_k3, stubs=(STUB_SRC,), outside=k3_out,
                   entry='_EqualityStringMatcher(expected, validator).matches_w_trace(actual)'))
     obs.append(Ob(name='K3:early-stop', fn='k3_equality', kernel='K3',
-                  case=dict(maxlen=2, maxlen_e=2, alphabet='a\n', pad='x' * 119 + '\n' + 'y' * 30),
+                  case=dict(maxlen=2, maxlen_e=1 if quick else 2, alphabet='a\n', pad='x' * 119 + '\n' + 'y' * 30),
                   bound='actual text = c + 150 concrete characters + d for all texts cd of <= 2 characters over '
-                        '{a, new-line}: the read-ahead stops before the end of the actual text; every expected text of <= 2 characters',
-                  timeout=300, real=real_k3, stubs=(STUB_SRC,), outside=k3_out,
+                        '{a, new-line}: the read-ahead stops before the end of the actual text; every expected text of <= %d characters' % (1 if quick else 2),
+                  timeout=600, real=real_k3, stubs=(STUB_SRC,), outside=k3_out,
                   entry='_EqualityStringMatcher(expected, validator).matches_w_trace(actual)'))
     obs.append(Ob(name='K3:seeded-oracle-error', fn='k3_equality', kernel='K3',
                   case=dict(maxlen=2, maxlen_e=2, alphabet='a\n', oracle_bug=True),
@@ -497,7 +566,7 @@ def obligations(tier: str) -> List[Ob]:
 
     # ---- K4
     real_k4a = (_P + 'string_transformer.impl.replace.impl._lines_iterator_from_replacements',)
-    for n, lr in (((1, 3), (2, 2), (3, 2)) if quick else ((1, 4), (2, 3), (3, 2))):
+    for n, lr in (((1, 3), (2, 2), (3, 1)) if quick else ((1, 4), (2, 3), (3, 2))):
         obs.append(Ob(name='K4:redivide-%d-lines' % n, fn='k4a_redivide', kernel='K4',
                       case=dict(n=n, maxlen_r=lr),
                       bound='%d input lines; every result r_i of the substitution, |r_i| <= %d over {a, new-line}' % (n, lr),
@@ -508,7 +577,7 @@ def obligations(tier: str) -> List[Ob]:
                   case=dict(n=2, maxlen_r=1, oracle_bug=True), expect=ob.REFUTE,
                   bound='seeded oracle error: a final line without new-line is dropped', timeout=300, real=real_k4a))
     real_k4b = tuple(REAL_PARSE_T) + tuple(REAL_OF['replace'])
-    n4 = 3 if quick else 4
+    n4 = 2 if quick else 3
     for preserve in (False, True):
         for at, at_name in ((None, ''), (('U',), '-at-U'), (('not', ('U',)), '-at-!U')):
             if quick and at_name == '-at-!U':
@@ -521,7 +590,7 @@ def obligations(tier: str) -> List[Ob]:
                       'every result r_i of the i:th substitution, |r_i| <= 1 over {a, new-line}%s' % (
                           L.render_transformer(('replace', preserve, at, 'RX', 'E')), n4,
                           '; every verdict of U per line' if at else ''),
-                timeout=900, real=real_k4b, stubs=(STUB_RE, STUB_TMP) + ((STUB_U,) if at else ()),
+                timeout=300 if quick else 2400, real=real_k4b, stubs=(STUB_RE, STUB_TMP) + ((STUB_U,) if at else ()),
                 outside=(OUT_SRC, OUT_UNI),
                 entry='parse_string_transformer.parsers().full -> transform(text).contents().as_lines'))
     obs.append(Ob(name='K4:replace-seeded-oracle-error', fn='k4b_replace_uninterpreted', kernel='K4',
